@@ -214,7 +214,8 @@ class Reexpress:
         self.p_alias, self.p_inherit, self.p_include = p_alias, p_inherit, p_include
         self.use_std = rnd.random() < 0.5
         self.stats = {'aliases': 0, 'alias_chains': 0, 'inherits': 0, 'null_resets': 0, 'files': 0, 'std_aliases': 0,
-                      'short_members': 0, 'shadowed_files': 0}
+                      'short_members': 0, 'shadowed_files': 0, 'shared_bases': 0}
+        self.bases = {}      # alias name -> effective base field type (canonical spelling) other types may inherit too
 
     # -- field types
     def fresh(self, pfx):
@@ -261,6 +262,22 @@ class Reexpress:
             if k in STD_ALIASES:
                 self.stats['std_aliases'] += 1
                 return STD_ALIASES[k]
+        # several field types inheriting the SAME alias, each with its own overrides: node = patch(shared base, overlay)
+        if base_class is not None and self.bases and rnd.random() < 0.35:
+            cands = [(n, b) for n, b in self.bases.items() if b.get('class') == base_class and self.can_share(b, node)]
+            if cands:
+                bname, b = rnd.choice(cands)
+                ov = {k: v for k, v in node.items() if k != 'class' and (k not in b or b[k] != v)}
+                for k in b:
+                    if k not in node:
+                        ov[k] = None          # reset to the default
+                        self.stats['null_resets'] += 1
+                self.stats['shared_bases'] += 1
+                self.stats['inherits'] += 1
+                node = dict([('$inherit', bname)] + list(ov.items()))
+                if rnd.random() < self.p_alias:
+                    return self.add_alias(node)
+                return node
         # inheritance: node = patch(base, overlay)
         if rnd.random() < self.p_inherit and base_class is not None:
             base, ov = {}, {}
@@ -292,8 +309,10 @@ class Reexpress:
                     base[k] = alt
                     ov[k] = None
                     self.stats['null_resets'] += 1
+            canonical_base = copy.deepcopy(base)
             self.spell(base)
             bname = self.add_alias(self.ft_maybe_inherit_again(base, depth))
+            self.bases[bname] = canonical_base
             ov = dict([('$inherit', bname)] + list(ov.items()))
             self.stats['inherits'] += 1
             node = ov
@@ -315,6 +334,20 @@ class Reexpress:
             self.stats['inherits'] += 1
             return dict([('$inherit', b2)] + list(rest.items()))
         return base
+
+    def can_share(self, b, node):
+        """can `node` be written as `$inherit: <alias of b>` plus overrides?  Compound properties (merged or
+        appended, never replaced) must already be equal; a property of the base the node does not have must be
+        resettable with null"""
+        for k, v in b.items():
+            if k == 'class':
+                continue
+            if k in ('members', 'mappings', 'element-field-type'):
+                if node.get(k) != v:
+                    return False
+            elif k not in node and not self.applies(k, b.get('class')):
+                return False
+        return True
 
     @staticmethod
     def applies(k, cls):
